@@ -105,7 +105,9 @@ Theorem C09_ancestry : forall e rk ro fo X A, wf_engineb e rk = true ->
 Proof.
   intros e rk ro fo X A H d. pose proof (wf_engineb_spec e rk H) as W. split.
   - unfold d. rewrite (t_anc_iff e (rank_of rk) W).
-    split; apply ct_incl; intros x y Hxy; apply (t_kids_iff e (rank_of rk) W); exact Hxy.
+    split; apply ct_incl; intros x y Hxy;
+      [apply (t_kids_iff e (rank_of rk) W ro fo); exact Hxy
+      | apply (t_kids_iff e (rank_of rk) W ro fo) in Hxy; exact Hxy].
   - unfold d. rewrite (t_par_iff e (rank_of rk) W), (t_kids_iff e (rank_of rk) W). reflexivity.
 Qed.
 Print Assumptions C09_ancestry.
